@@ -60,6 +60,9 @@ func (r *robj) id() string {
 }
 
 type frame struct {
+	// repeat: a further notification of a subscription whose first notification frame was
+	// already decoded in full (fast path, the value has still been syntax-checked)
+	repeat  bool
 	off     int
 	at      int64
 	isArray bool
@@ -67,11 +70,16 @@ type frame struct {
 	raw     []byte
 }
 
+// exact head of a subscription notification as the tree's encoder writes it
+var notifPrefix = []byte(`{"jsonrpc":"2.0","method":"t_subscription","params":{"subscription":"`)
+
 // parseStream decodes the concatenation of everything written as a sequence of JSON values.
 func parseStream(out []byte, writes []wrec) ([]*frame, error) {
 	dec := json.NewDecoder(bytes.NewReader(out))
 	dec.UseNumber()
 	var frames []*frame
+	wi := 0
+	seenNotif := map[string]bool{}
 	for {
 		startOff := int(dec.InputOffset())
 		var raw json.RawMessage
@@ -87,12 +95,25 @@ func parseStream(out []byte, writes []wrec) ([]*frame, error) {
 			off++
 		}
 		f := &frame{off: off, raw: raw, at: -1}
-		for _, w := range writes {
-			if off >= w.off && off < w.off+w.n {
-				f.at = w.at
-			}
+		for wi < len(writes) && off >= writes[wi].off+writes[wi].n {
+			wi++
+		}
+		if wi < len(writes) && off >= writes[wi].off {
+			f.at = writes[wi].at
 		}
 		trim := bytes.TrimSpace(raw)
+		if bytes.HasPrefix(trim, notifPrefix) {
+			rest := trim[len(notifPrefix):]
+			if q := bytes.IndexByte(rest, '"'); q > 0 {
+				id := string(rest[:q])
+				if seenNotif[id] {
+					f.repeat = true
+					frames = append(frames, f)
+					continue
+				}
+				seenNotif[id] = true
+			}
+		}
 		switch {
 		case len(trim) > 0 && trim[0] == '[':
 			f.isArray = true
@@ -246,7 +267,9 @@ func checkContent(p *Plan, u *Unit, e *Entry, r *robj, timeoutPossible bool) str
 	}
 	ctxErr := e.Ctx && r.Error != nil && r.Error.Code == -32000 && strings.Contains(r.Error.Message, "context")
 	switch e.Method {
-	case "echo":
+	case "sfxnone":
+		return ecode(-32601)
+	case "echo", "sfxecho":
 		if s, ok := str(); !ok || s != e.Name {
 			return "expected result " + e.Name
 		}
@@ -526,6 +549,10 @@ func judge(p *Plan, o *obs, deadlock string, res *simcore.Result) *simcore.Resul
 		}
 		var notifs []notif
 		for fi, f := range s.frames {
+			if f.repeat {
+				lh = lh.String("N")
+				continue
+			}
 			if f.isArray {
 				var ids []string
 				for _, r := range f.objs {
@@ -663,6 +690,7 @@ func judge(p *Plan, o *obs, deadlock string, res *simcore.Result) *simcore.Resul
 				notifs = append(notifs, n)
 				lh = lh.String("N").String(n.name)
 				st = st.String("N")
+				res.Probe("subscription-notification-stream")
 				continue
 			}
 			id := r.id()
@@ -934,6 +962,12 @@ func judge(p *Plan, o *obs, deadlock string, res *simcore.Result) *simcore.Resul
 			}
 			if e.Method == "sub" && e.Kind == "notif" {
 				res.Probe("idless-subscribe")
+			}
+			if e.Method == "sub" && e.Pre >= 40000 && w.notified[e.Name] >= 40000 {
+				res.Probe("bulk-in-call-notifications")
+			}
+			if (e.Method == "sfxecho" || e.Method == "sfxnone") && e.Kind == "call" {
+				res.Probe("call-named-like-subscription-notification")
 			}
 		}
 	}
